@@ -6,7 +6,8 @@ the threshold reaches both comparisons from the encoding parameters; failure
 paths abort what was allocated; every remote write of the Encoder is wired to
 _remove_shareholder and a failure reaches Encoder.err; the share-holder proxy (WriteBucketProxy) hands the
 outcome of every remote write to that wiring and closes a share only after its last write succeeded;
-every write Deferred of a push stage is gathered (DESIGN.md section 5, C06)."""
+every write Deferred of a push stage is gathered; the set of placed shares that the UploadResults report is read
+from the surviving landlords only after the last stage was answered (DESIGN.md section 5, C06)."""
 from sa.h import *
 
 EXPLANATION = (
@@ -25,7 +26,7 @@ EXPLANATION = (
     "_gather_responses propagates the first failure (DeferredList fireOnOneErrback, eater added afterwards), every "
     "push stage returns the gathered Deferred, Encoder.start runs all stages, close last, and ends with "
     "addCallbacks(done, err) with no earlier failure handler; (7) Encoder.err aborts every remaining landlord and "
-    "returns a failure; the placed-share set reported is the set of surviving landlords; "
+    "returns a failure; "
     "(8) in WriteBucketProxy (the object behind self.landlords[i]) the Deferred of every remote call made by "
     "put_*/close and their helpers (callRemote, effectful self-calls, callbacks with a remote call) is part of the "
     "Deferred returned to the Encoder on every path, and no errback/addBoth/plain DeferredList on the way replaces "
@@ -35,6 +36,14 @@ EXPLANATION = (
     "(10) in every push stage the Deferred of each remote call on a landlord (made in the stage or by a send_* "
     "helper) is, on every path, an element of the list handed to self._gather_responses (list not re-bound or "
     "emptied in between), so that the stage waits for it and the UploadUnhappinessError of (5) is observed by (6). "
+    "(11) the placed-share set is a copy/filter of self.landlords (nothing merged in) taken at completion: "
+    "Encoder._shares_placed is bound from self.landlords only in done() - the success end of the chain of (6) - or in "
+    "a method referenced only from there; a binding in code that can run before the close stage was answered must be "
+    "an empty value or a live view (self.landlords / .keys()); get_shares_placed returns that attribute (or computes "
+    "the copy on demand); CHKUploader.start_encrypted builds the results (_encrypted_done, no other caller) only "
+    "after awaiting self._encoder.start() / as its success callback; every entry _encrypted_done puts into the "
+    "sharemap / servermap of UploadResults lies in a loop over self._encoder.get_shares_placed(), is keyed by that "
+    "share number (sharemap) resp. holds it (servermap), and names the server of self._server_trackers[<share>]. "
     "Undecided: the value computed by servers_of_happiness (C08), server-side deletion on abort (C22), "
     "interleavings of responses, the byte accounting of _WriteBuffer (that 'queued bytes == 0' really means "
     "everything was sent) and the offset/length preconditions of put_*/close that make the written bytes add up to a "
@@ -42,7 +51,10 @@ EXPLANATION = (
     "layout get_shareholders evaluated (an over-approximated servermap is a value-level error), which "
     "configuration value (per-upload or default 'happy') ends up in the parameter tuple, that every "
     "allocate_buckets response has arrived before the final evaluation (the layout only grows afterwards; late "
-    "allocations would merely leak until disconnect), proxies other than WriteBucketProxy and its subclasses.")
+    "allocations would merely leak until disconnect), proxies other than WriteBucketProxy and its subclasses, "
+    "that CHKUploader.set_shareholders maps _server_trackers[shnum] to the tracker whose bucket became "
+    "landlords[shnum] (value level), in-place growth of _shares_placed (add/update: reported as not modelled), the "
+    "pushed_shares / preexisting_shares counters of the results.")
 TECHNIQUE = "static analysis: CFG x typestate monitor for the happiness gate, Deferred-chain discipline, positional agreement"
 
 SEL = "immutable.upload:Tahoe2ServerSelector"
@@ -668,6 +680,97 @@ class ProxyFlow:
         return res
 
 
+
+# ------------------------------------------------- the reported set of placed shares (C06.11)
+SET_COPIES = {"set", "frozenset", "list", "tuple", "sorted", "dict", "iter", "reversed"}
+GROWING = {"add", "update", "append", "extend", "insert", "setdefault", "symmetric_difference_update", "__setitem__",
+           "union_update"}
+
+
+def top_unit(f):
+    while f.parent is not None:
+        f = f.parent
+    return f
+
+
+def live_landlord_view(e):
+    """self.landlords itself or self.landlords.keys(): follows later removals (a dict view is live)."""
+    if attr_path(e) == "self.landlords":
+        return True
+    return isinstance(e, ast.Call) and isinstance(e.func, ast.Attribute) and e.func.attr == "keys" \
+        and not e.args and not e.keywords and attr_path(e.func.value) == "self.landlords"
+
+
+def empty_value(e):
+    if isinstance(e, ast.Constant) and e.value is None:
+        return True
+    if isinstance(e, (ast.List, ast.Tuple, ast.Set)) and not e.elts:
+        return True
+    if isinstance(e, ast.Dict) and not e.keys:
+        return True
+    return isinstance(e, ast.Call) and isinstance(e.func, ast.Name) and e.func.id in SET_COPIES \
+        and not e.args and not e.keywords
+
+
+def landlord_subset(fnorm, n, e, depth=0):
+    """The value of e (evaluated at CFG node n) holds only share numbers that are keys of self.landlords at that
+    moment: copies / views / filters / intersections of it.  A union is a subset only if both sides are."""
+    if e is None or depth > 8:
+        return False
+    if isinstance(e, ast.Name):
+        d = fnorm.resolve(n, e)
+        return d is not e and not isinstance(d, ast.Name) and landlord_subset(fnorm, n, d, depth + 1)
+    if attr_path(e) == "self.landlords":
+        return True
+    rec = lambda x: landlord_subset(fnorm, n, x, depth + 1)
+    if isinstance(e, ast.Call) and not e.keywords:
+        if isinstance(e.func, ast.Name) and e.func.id in SET_COPIES and len(e.args) == 1:
+            return rec(e.args[0])
+        if isinstance(e.func, ast.Attribute):
+            if e.func.attr in ("keys", "copy") and not e.args:
+                return rec(e.func.value)
+            if e.func.attr in ("intersection", "difference"):
+                return rec(e.func.value)
+            if e.func.attr == "union":
+                return rec(e.func.value) and all(rec(a) for a in e.args)
+        return False
+    if isinstance(e, (ast.SetComp, ast.ListComp, ast.GeneratorExp)) and len(e.generators) == 1:
+        g = e.generators[0]
+        return isinstance(g.target, ast.Name) and isinstance(e.elt, ast.Name) and e.elt.id == g.target.id \
+            and rec(g.iter)
+    if isinstance(e, ast.BinOp):
+        if isinstance(e.op, ast.BitAnd):
+            return rec(e.left) or rec(e.right)
+        if isinstance(e.op, ast.Sub):
+            return rec(e.left)
+        if isinstance(e.op, ast.BitOr):
+            return rec(e.left) and rec(e.right)
+        return False
+    if isinstance(e, ast.IfExp):
+        return rec(e.body) and rec(e.orelse)
+    return False
+
+
+def enclosing_loops(pm, node):
+    """ast.For statements / comprehension generators that enclose the node, innermost first."""
+    out = []
+    cur = pm.get(id(node))
+    while cur is not None:
+        if isinstance(cur, ast.For):
+            out.append((cur.target, cur.iter))
+        elif isinstance(cur, (ast.ListComp, ast.SetComp, ast.DictComp, ast.GeneratorExp)):
+            out.extend((g.target, g.iter) for g in cur.generators)
+        cur = pm.get(id(cur))
+    return out
+
+
+def strip_copies(e):
+    while isinstance(e, ast.Call) and isinstance(e.func, ast.Name) and e.func.id in SET_COPIES and len(e.args) == 1 \
+            and not e.keywords:
+        e = e.args[0]
+    return e
+
+
 # --------------------------------------------------------------------- rules
 def run(ctx: Context):
     idx = ctx.idx
@@ -1176,8 +1279,8 @@ def run(ctx: Context):
                           "chain that ends in done/err" % src(st, n.ast.value))
 
     # -- 7. Encoder.err / done -----------------------------------------------
-    with ctx.rule("C06.7", "R1", "Encoder.err aborts every remaining landlord on every path and returns a failure; "
-                  "the reported placed shares are the surviving landlords", expected=2) as r:
+    with ctx.rule("C06.7", "R1", "Encoder.err aborts every remaining landlord on every path and returns a failure "
+                  "(the reported placed shares: C06.11)", expected=1) as r:
         fn = idx.func(ENC + ".err")
         cfg = fn.cfg()
         fp = first_positional_params(fn)[0]
@@ -1209,23 +1312,6 @@ def run(ctx: Context):
             r.require(ok, fn, fn.loc(n.ast), "Encoder.err returns %s: the failure is replaced by a success value" % src(fn, v))
         for w in reaches_exit_avoiding(cfg, is_return):
             r.violation(fn, fn.loc(), "Encoder.err can fall off its end (returns None): the failure becomes a success", w)
-        # placed shares
-        dn = idx.func(ENC + ".done")
-        r.site(dn, None, "Encoder.done")
-        st = [n for n in dn.cfg().find(stores("self._shares_placed"))]
-        if not st:
-            raise AnchorVanished("Encoder.done no longer stores self._shares_placed")
-        for n in st:
-            v = assign_value(n, "self._shares_placed")
-            r.require(v is not None and "self.landlords" in depends_on(dn, v), dn, dn.loc(n.ast),
-                      "_shares_placed is %s, not derived from the surviving self.landlords" % src(dn, v))
-        for (f, nd) in cg.attr_stores("_shares_placed"):
-            if f.cls is not None and f.cls.name == "Encoder" and f.qual != dn.qual:
-                r.violation(f, f.loc(nd), "_shares_placed is written outside Encoder.done")
-        gs = idx.func(ENC + ".get_shares_placed")
-        for n in gs.cfg().find(is_return):
-            r.require(attr_path(n.ast.value) == "self._shares_placed", gs, gs.loc(n.ast),
-                      "get_shares_placed returns %s" % src(gs, n.ast.value))
 
     # -- 8. the share-holder proxy hands every remote outcome to its caller ----
     with ctx.rule("C06.8", "E7", "WriteBucketProxy: in every method behind landlords[i].put_*/close the Deferred of "
@@ -1474,3 +1560,253 @@ def run(ctx: Context):
                                     "for this write nor see the UploadUnhappinessError of its removal (path: %s)"
                                     % (short(sf), L, what, w.brief()), w)
                         break
+
+    # -- 11. the set of placed shares that is reported ---------------------------------
+    with ctx.rule("C06.11", "R1/E4", "the placed-share set is read from the surviving self.landlords only at "
+                  "completion: Encoder._shares_placed is bound (to a copy/filter of self.landlords, nothing added) in "
+                  "done() or a helper that only done() reaches - earlier only to a live view or an empty value; "
+                  "get_shares_placed returns it; CHKUploader._encrypted_done runs after `yield encoder.start()` and "
+                  "enters into UploadResults' sharemap/servermap only share numbers iterated from "
+                  "encoder.get_shares_placed(), each with the server of self._server_trackers[<that share>]",
+                  expected=5) as r:
+        enc = idx.cls(ENC)
+        dn = idx.func(ENC + ".done")
+        gs = idx.func(ENC + ".get_shares_placed")
+        ATTR = "self._shares_placed"
+
+        def node_evaluating(fi, e):
+            for n in fi.cfg().nodes:
+                if n.kind in ("entry", "exit", "raise"):
+                    continue
+                for ex in node_exprs(n):
+                    if any(y is e for y in own_nodes(ex, into_lambda=True)):
+                        return n
+            raise AnalysisError("no CFG node evaluates %s in %s" % (src(fi, e), short(fi)))
+
+        # (a) completion units: done, and Encoder methods referenced only from completion units
+        comp = {dn.qual}
+        changed = True
+        while changed:
+            changed = False
+            for m in enc.methods.values():
+                if m.qual in comp or m.name.startswith("__"):
+                    continue
+                users = [cs.fn for cs in cg.calls_named(m.name)] + \
+                        [f for (f, nd) in cg.refs_named(m.name) if isinstance(nd, ast.Attribute)]
+                if users and all(top_unit(f).qual in comp for f in users):
+                    comp.add(m.qual)
+                    changed = True
+        in_completion = lambda f: top_unit(f).qual in comp
+
+        # (b) what get_shares_placed hands out
+        rets = gs.cfg().find(is_return)
+        if not rets:
+            raise AnchorVanished("Encoder.get_shares_placed returns nothing")
+        gnorm = FlowNorm(gs)
+        uses_attr = False
+        for n in rets:
+            v = n.ast.value
+            rv = gnorm.resolve(n, v) if isinstance(v, ast.Name) else v
+            r.site(gs, n.ast, "value handed to the uploader")
+            if attr_path(rv) == ATTR:
+                uses_attr = True
+            elif landlord_subset(gnorm, n, rv):
+                # computed on demand; (d) below establishes that the uploader asks only after completion
+                r.site(gs, n.ast, "placed set read from self.landlords on demand")
+            else:
+                r.violation(gs, gs.loc(n.ast), "get_shares_placed returns %s, which is neither self._shares_placed "
+                            "nor a copy/filter of the surviving self.landlords" % src(gs, v))
+
+        # (c) every binding of the attribute
+        stores_ = [(f, nd) for (f, nd) in cg.attr_stores("_shares_placed")
+                   if top_unit(f).cls is not None and top_unit(f).cls.name == "Encoder"]
+        final = 0
+        for (f, nd) in stores_:
+            sn = [n for n in f.cfg().nodes if n.kind in ("stmt", "iter", "with", "except")
+                  and (ATTR in node_stores(n) or (ATTR + "[]") in node_stores(n))
+                  and any(y is nd for ex in node_exprs(n) for y in own_nodes(ex))]
+            if not sn:
+                sn = [n for n in f.cfg().nodes if n.kind == "stmt" and any(y is nd for y in ast.walk(n.ast))]
+            if not sn:
+                raise AnalysisError("store of %s in %s has no CFG node" % (ATTR, short(f)))
+            n = sn[0]
+            v = assign_value(n, ATTR)
+            fnorm = FlowNorm(f)
+            rv = fnorm.resolve(n, v) if isinstance(v, ast.Name) else v
+            if in_completion(f):
+                r.site(f, n.ast, "binding at completion")
+                if v is None:
+                    raise AnalysisError("%s: %s is bound by %s (form not modelled)" % (short(f), ATTR, src(f, n.ast)))
+                if landlord_subset(fnorm, n, rv):
+                    final += 1
+                elif empty_value(rv):
+                    pass
+                elif "self.landlords" not in depends_on(f, v):
+                    r.violation(f, f.loc(n.ast), "_shares_placed is %s, not derived from the surviving self.landlords "
+                                "at completion: share holders that were removed (and aborted) after that value was "
+                                "computed are still reported as placed" % src(f, v))
+                else:
+                    r.violation(f, f.loc(n.ast), "_shares_placed is %s, which is not provably a copy/filter of the "
+                                "surviving self.landlords (something else is merged in): shares without a surviving "
+                                "share holder can be reported as placed" % src(f, v))
+            else:
+                r.site(f, n.ast, "binding before completion")
+                if v is not None and (empty_value(rv) or live_landlord_view(rv)):
+                    continue
+                r.violation(f, f.loc(n.ast), "%s binds _shares_placed = %s, but %s can run before the share holders "
+                            "have answered their last request (close): a share holder that fails afterwards is "
+                            "removed and aborted by _remove_shareholder yet stays in the placed set that the "
+                            "UploadResults report (only done(), after the gathered close stage, may snapshot "
+                            "self.landlords)" % (short(f), src(f, v) if v is not None else src(f, n.ast), short(f)))
+        for m in enc.methods.values():
+            for c in calls_in_func(m):
+                if isinstance(c.func, ast.Attribute) and c.func.attr in GROWING \
+                        and base_path(c.func.value) == ATTR:
+                    raise AnalysisError("%s grows %s in place (%s): not modelled" % (short(m), ATTR, src(m, c)))
+        if uses_attr and not final and not r.violations:
+            raise AnchorVanished("no completion unit of Encoder (done or a helper only it reaches) binds "
+                                 "self._shares_placed from self.landlords")
+
+        # (d) the uploader reads the set only after the encoder finished
+        ed = idx.func(CHK + "._encrypted_done")
+        se = idx.func(CHK + ".start_encrypted")
+        bad, badrefs, total = callers_outside(idx, "_encrypted_done", [se.qual])
+        for cs in bad:
+            r.violation(cs.fn, cs.fn.loc(cs.call), "_encrypted_done (which builds the UploadResults from the "
+                        "encoder's placed set) is called from %s, outside start_encrypted" % short(cs.fn))
+        for (f, nd) in badrefs:
+            r.violation(f, f.loc(nd), "_encrypted_done is passed around in %s, outside start_encrypted" % short(f))
+        scfg = se.cfg()
+        snorm = FlowNorm(se)
+        want_start = norm_src("self._encoder.start()")
+
+        def awaits_encoder(n):
+            for ex in node_exprs(n):
+                for y in own_nodes(ex):
+                    if isinstance(y, (ast.Yield, ast.Await, ast.YieldFrom)) and y.value is not None \
+                            and snorm.norm(n, strip_regs(y.value)) == want_start:
+                        return True
+            return False
+        call_nodes = scfg.find(lambda n: n.kind != "test" and any(call_name(c) == "self._encrypted_done"
+                                                                    for c in node_calls(n)))
+        cbs = [reg for reg in registrations(se) if is_self_method(reg.target, "_encrypted_done")
+               or (reg.errtarget is not None and is_self_method(reg.errtarget, "_encrypted_done"))]
+        if not call_nodes and not cbs:
+            raise AnchorVanished("start_encrypted no longer runs self._encrypted_done")
+        if call_nodes and (any(isinstance(x, ast.Try) for x in func_own_nodes(se))
+                           or not any((attr_path(d) or "").split(".")[-1] in ("inlineCallbacks", "inline_callbacks")
+                                      for d in se.decorators())):
+            raise AnalysisError("start_encrypted is not a plain inlineCallbacks body (try / no decorator): the "
+                                "ordering of `yield encoder.start()` and _encrypted_done is not modelled")
+        for n in call_nodes:
+            r.site(se, n.ast, "results built after the encoder finished")
+        for (n, w) in find_path_avoiding(scfg, lambda x: x in call_nodes, gate_node=awaits_encoder):
+            r.violation(se, se.loc(n.ast), "start_encrypted can build the UploadResults (_encrypted_done) without "
+                        "having awaited self._encoder.start(): the placed set is read before the share holders "
+                        "answered (path: %s)" % w.brief(), w)
+        sdefs = def_exprs(se)
+        for reg in cbs:
+            r.site(se, reg.call, "results built after the encoder finished")
+            base = strip_regs(reg.call)
+            cands = [base] if not isinstance(base, ast.Name) else list(sdefs.get(base.id, []))
+            ok = reg.kind in ("cb", "pair") and is_self_method(reg.target, "_encrypted_done") and cands and all(
+                N(se).norm(strip_regs(x)) == want_start for x in cands)
+            r.require(ok, se, se.loc(reg.call), "_encrypted_done is registered by %s, which is not a success callback "
+                      "of the Deferred of self._encoder.start()" % src(se, reg.call))
+
+        # (e) what the UploadResults name as placed
+        ecfg = ed.cfg()
+        enorm = FlowNorm(ed)
+        epm = parent_map(ed)
+        want_iter = norm_src("self._encoder.get_shares_placed()")
+        urs = [c for c in calls_in_func(ed) if call_tail(c) == "UploadResults"]
+        if not urs:
+            raise AnchorVanished("_encrypted_done no longer builds UploadResults(..)")
+        for c in urs:
+            for kw, pos in (("sharemap", 4), ("servermap", 5)):
+                a = arg(c, pos, kw)
+                if a is None:
+                    raise AnchorVanished("UploadResults(..) is built without %s" % kw)
+                if not isinstance(a, ast.Name):
+                    raise AnalysisError("UploadResults(%s=%s): not a local container (not modelled)" % (kw, src(ed, a)))
+                v = a.id
+                binds = [x.value for x in func_own_nodes(ed) if isinstance(x, (ast.Assign, ast.AnnAssign))
+                         and x.value is not None
+                         and any(isinstance(t, ast.Name) and t.id == v
+                                 for t in (x.targets if isinstance(x, ast.Assign) else [x.target]))]
+                if not binds or v in ed.params:
+                    raise AnalysisError("_encrypted_done: %s is not bound by a plain assignment (not modelled)" % v)
+                def other_targets(x):
+                    if isinstance(x, (ast.AugAssign, ast.For, ast.NamedExpr, ast.comprehension)):
+                        return [x.target]
+                    if isinstance(x, ast.With):
+                        return [i.optional_vars for i in x.items if i.optional_vars is not None]
+                    return []
+                if any(isinstance(y, ast.Name) and y.id == v for x in func_own_nodes(ed, into_lambda=True)
+                       for t in other_targets(x) for y in ast.walk(t)):
+                    raise AnalysisError("_encrypted_done: %s is re-bound by a loop/augmented assignment (not modelled)" % v)
+                for dv in binds:
+                    if not (isinstance(dv, ast.Call) and not dv.args and not dv.keywords) and not empty_value(dv):
+                        raise AnalysisError("_encrypted_done: %s starts as %s, not as an empty container "
+                                            "(not modelled)" % (v, src(ed, dv)))
+                def unwrap(val):
+                    """{x} / [x] / set([x]) -> [x]; an empty container -> []."""
+                    if empty_value(val):
+                        return []
+                    if isinstance(val, (ast.Set, ast.List, ast.Tuple)):
+                        return list(val.elts)
+                    if isinstance(val, ast.Call) and isinstance(val.func, ast.Name) and val.func.id in SET_COPIES \
+                            and len(val.args) == 1 and isinstance(val.args[0], (ast.Set, ast.List, ast.Tuple)):
+                        return list(val.args[0].elts)
+                    return [val]
+                grows = []      # (construct, key expression, [value expressions])
+                for x in func_own_nodes(ed, into_lambda=True):
+                    if isinstance(x, ast.Call) and isinstance(x.func, ast.Attribute) and x.func.attr in GROWING \
+                            and base_path(x.func.value) == v:
+                        rcv = x.func.value
+                        if isinstance(rcv, ast.Name) and x.func.attr == "add" and len(x.args) == 2 and not x.keywords:
+                            grows.append((x, x.args[0], [x.args[1]]))           # DictOfSets.add(key, value)
+                        elif isinstance(rcv, ast.Name) and x.func.attr == "setdefault" and x.args:
+                            grows.append((x, x.args[0], [y for a_ in x.args[1:] for y in unwrap(a_)]))
+                        elif isinstance(rcv, ast.Subscript) and isinstance(rcv.value, ast.Name):
+                            grows.append((x, rcv.slice, [y for a_ in x.args for y in unwrap(a_)]))
+                        elif isinstance(rcv, ast.Call) and call_name(rcv) == v + ".setdefault" and rcv.args:
+                            grows.append((x, rcv.args[0], [y for a_ in x.args for y in unwrap(a_)]))
+                        else:
+                            raise AnalysisError("_encrypted_done: %s is filled by %s (form not modelled)" % (v, src(ed, x)))
+                    elif isinstance(x, (ast.Assign, ast.AugAssign)):
+                        for t in (x.targets if isinstance(x, ast.Assign) else [x.target]):
+                            if isinstance(t, ast.Subscript) and base_path(t) == v:
+                                if not isinstance(t.value, ast.Name):
+                                    raise AnalysisError("_encrypted_done: %s is filled by %s (form not modelled)"
+                                                        % (v, src(ed, x)))
+                                grows.append((x, t.slice, unwrap(x.value)))
+                if not grows:
+                    raise AnchorVanished("_encrypted_done puts nothing into the %s of the UploadResults" % kw)
+                for (g, key, vals) in grows:
+                    gn = node_evaluating(ed, g) if isinstance(g, ast.Call) else \
+                        [n for n in ecfg.nodes if n.kind == "stmt" and n.ast is g][0]
+                    r.site(ed, g, "entry of UploadResults.%s" % kw)
+                    placed_vars = [t.id for (t, it) in enclosing_loops(epm, g) if isinstance(t, ast.Name)
+                                   and enorm.norm(gn, strip_copies(it)) == want_iter]
+                    if not placed_vars:
+                        r.violation(ed, ed.loc(g), "UploadResults.%s gets the entry %s outside a loop over "
+                                    "self._encoder.get_shares_placed(): a share that has no surviving share holder "
+                                    "(removed and aborted after a failed write/close) can be reported as placed"
+                                    % (kw, src(ed, g)))
+                        continue
+                    pat = re.compile(r"^self\._server_trackers\[(%s)\]\.\w+\(\)$"
+                                     % "|".join(re.escape(t) for t in placed_vars))
+                    kform = enorm.norm(gn, key)
+                    vforms = [enorm.norm(gn, x) for x in vals]
+                    # sharemap: {share number: servers}; servermap: {server: share numbers}
+                    shares, servers = ([kform], vforms) if kw == "sharemap" else (vforms, [kform])
+                    bad_sh = [fm for fm in shares if fm not in placed_vars]
+                    if not r.require(not bad_sh, ed, ed.loc(g), "UploadResults.%s entry %s: the share number is %s, "
+                                     "not the one iterated from get_shares_placed() (%s)"
+                                     % (kw, src(ed, g), ", ".join(bad_sh), ", ".join(placed_vars))):
+                        continue
+                    bad_sv = [fm for fm in servers if not pat.match(fm)]
+                    r.require(not bad_sv, ed, ed.loc(g), "UploadResults.%s entry %s: the server named for share %s is "
+                              "%s, not the server of self._server_trackers[%s] (the tracker whose bucket became that "
+                              "share holder)" % (kw, src(ed, g), placed_vars[0], ", ".join(bad_sv), placed_vars[0]))
